@@ -351,6 +351,26 @@ impl ExpressionPredicate {
                     let left_val = self.eval_expr(left, chunk, row)?;
                     return self.eval_in_operator(&left_val, right, chunk, row);
                 }
+                // AND / OR use three-valued logic: an unknown (NULL / missing) operand does
+                // not make the whole condition unknown when the other operand decides it.
+                if matches!(op, BinaryFilterOp::And | BinaryFilterOp::Or) {
+                    let l = self
+                        .eval_expr(left, chunk, row)
+                        .and_then(|v| v.as_bool());
+                    let r = self
+                        .eval_expr(right, chunk, row)
+                        .and_then(|v| v.as_bool());
+                    return match (*op, l, r) {
+                        (BinaryFilterOp::And, Some(false), _)
+                        | (BinaryFilterOp::And, _, Some(false)) => Some(Value::Bool(false)),
+                        (BinaryFilterOp::And, Some(true), Some(true)) => Some(Value::Bool(true)),
+                        (BinaryFilterOp::Or, Some(true), _) | (BinaryFilterOp::Or, _, Some(true)) => {
+                            Some(Value::Bool(true))
+                        }
+                        (BinaryFilterOp::Or, Some(false), Some(false)) => Some(Value::Bool(false)),
+                        _ => None,
+                    };
+                }
                 let left_val = self.eval_expr(left, chunk, row)?;
                 let right_val = self.eval_expr(right, chunk, row)?;
                 self.eval_binary_op(&left_val, *op, &right_val)
